@@ -63,13 +63,39 @@ func (m *Machine) block(cond func() bool, what string) {
 		if len(en) == 0 {
 			m.deadlock()
 		}
-		k := 0
-		if len(en) > 1 {
-			k = m.choose(len(en), "sched-block")
-		}
-		m.switchTo(en[k])
+		m.switchTo(m.pick(en, "sched-block"))
 	}
 	cur.cond, cur.what = nil, ""
+}
+
+// pick chooses the next thread among the enabled ones (delay-bounded
+// scheduling): the default is the next enabled thread after the current one
+// in round-robin order; choosing any other thread costs one "delay" and the
+// number of delays per path is bounded by cfg.Preemptions (+ harness
+// override). With the budget exhausted the schedule is deterministic.
+func (m *Machine) pick(en []*thread, kind string) *thread {
+	if len(en) == 1 {
+		return en[0]
+	}
+	// default: first enabled thread with id > cur.id, else the lowest id
+	def := 0
+	for i, t := range en {
+		if t.id > m.cur.id {
+			def = i
+			break
+		}
+	}
+	if m.cfg.FullSchedules {
+		return en[m.choose(len(en), kind)]
+	}
+	if m.preemptions >= m.cfg.Preemptions+m.preemptBound {
+		return en[def]
+	}
+	k := m.choose(len(en), kind)
+	if k != 0 {
+		m.preemptions++
+	}
+	return en[(def+k)%len(en)]
 }
 
 // yield is a preemption point before a visible operation.
@@ -78,6 +104,12 @@ func (m *Machine) yield(what string) {
 		return
 	}
 	if m.preemptions >= m.cfg.Preemptions+m.preemptBound {
+		return
+	}
+	// Preemption points are the synchronisation operations performed by the
+	// repository's own code; operations inside library code loaded from source
+	// (context, sync/atomic wrappers, ...) are not split.
+	if !m.cfg.AllYields && !m.inRepoCode() {
 		return
 	}
 	cur := m.cur
@@ -180,12 +212,9 @@ func (m *Machine) runThread(t *thread, body func()) {
 					}
 				}
 			}()
-			k := 0
-			if len(en) > 1 {
-				k = m.choose(len(en), "sched-exit")
-			}
-			m.cur = en[k]
-			en[k].wake <- struct{}{}
+			next := m.pick(en, "sched-exit")
+			m.cur = next
+			next.wake <- struct{}{}
 		}()
 	}()
 	body()
